@@ -184,6 +184,34 @@ Theorem C16_get_excerpts_exact : forall (A : Type) (data : list A) (k size : Z),
 Proof. exact (@get_excerpts_exact). Qed.
 Print Assumptions C16_get_excerpts_exact.
 
+(* exactly when the generator terminates (generalises C16_termination_needs_ov_lt_cs): for a
+   non-negative length and chunk size, chunk_bounds stops iff overlap < chunk_size or the data is so
+   short that the loop is never entered; otherwise every amount of fuel runs out *)
+Theorem C16_termination_iff : forall n cs ov : Z, 0 <= n -> 0 <= cs ->
+  ((exists l, chunk_bounds n cs ov = Some l) <-> (ov < cs \/ n <= 2 * cs - ov)).
+Proof. exact chunk_bounds_terminates_iff. Qed.
+Print Assumptions C16_termination_iff.
+
+(* the assert / NameError exits of the other helpers, outside the guards of the theorems above *)
+Theorem C16_assert_exits :
+  (forall sizes cs, cs <= 0 -> get_chunk_bounds sizes cs = None) /\
+  (forall cs, 0 < cs -> get_chunk_bounds [] cs = Some []) /\
+  (forall n k size, k < 2 -> excerpts n k size = None) /\
+  (forall cb bs, 1 <= bs -> zlen cb <= 1 -> iter_mtscomp cb bs = None).
+Proof. exact assert_exits. Qed.
+Print Assumptions C16_assert_exits.
+
+(* reading a flat / array reader chunk by chunk: the non-empty intervals of iter_chunks, read one
+   after the other, give the recording exactly once; every interval is non-empty, in bounds and at
+   most the chunk length long (C16_reader_bounds + C16_iter_base + C16_tiles_data composed) *)
+Theorem C16_reader_chunks_data : forall (A : Type) (data : list A) (sizes : list Z) (cs : Z),
+  sizes <> [] -> (forall x, In x sizes -> 0 <= x) -> 1 <= cs -> zlen data = zsum sizes ->
+  exists b, get_chunk_bounds sizes cs = Some b /\
+    concat (map (iv_slice data) (filter nonempty (iter_base b))) = data /\
+    Forall (fun i => 0 <= lo i /\ lo i < hi i /\ hi i - lo i <= cs /\ hi i <= zlen data) (iter_base b).
+Proof. exact (@reader_chunks_data). Qed.
+Print Assumptions C16_reader_chunks_data.
+
 (* ---- non-vacuity: concrete, non-trivial instances ---- *)
 Example C16_ex_chunks :
   chunk_bounds 11 4 3 = Some [mk 0 4 0 3; mk 1 5 3 4; mk 2 6 4 5; mk 3 7 5 6; mk 4 8 6 7;
@@ -223,4 +251,9 @@ Example C16_ex_exc_regular : exc_regular 20 3 4 = [mkiv 0 4; mkiv 8 12; mkiv 16 
   /\ exc_regular 9 5 4 = [mkiv 0 4; mkiv 4 8; mkiv 8 9].
 Proof. vm_compute. split; reflexivity. Qed.
 Example C16_ex_get_excerpts_exact : get_excerpts [0; 1; 2; 3; 4; 5; 6; 7; 8; 9] 3 2 = Some [0; 1; 4; 5; 8; 9].
+Proof. vm_compute. reflexivity. Qed.
+Example C16_ex_termination : chunk_bounds 10 2 2 = None /\ chunk_bounds 2 2 2 = Some [mk 0 2 0 1; mk 0 2 1 2].
+Proof. vm_compute. split; reflexivity. Qed.
+Example C16_ex_reader_chunks : option_map iter_base (get_chunk_bounds [3; 1; 5] 2) =
+  Some [mkiv 0 2; mkiv 2 3; mkiv 3 4; mkiv 4 6; mkiv 6 8; mkiv 8 9].
 Proof. vm_compute. reflexivity. Qed.
